@@ -343,7 +343,12 @@ class Alarms:
     def _alarm_time(self, alarm: Alarm, trigger:date):
         """Create an alarm time with the additional attributes."""
         if getattr(trigger, "tzinfo", None) is None and self._local_tzinfo is not None:
-            trigger = normalize_pytz(to_datetime(trigger).replace(tzinfo=self._local_tzinfo))
+            trigger = to_datetime(trigger)
+            if hasattr(self._local_tzinfo, "localize"):
+                # pytz: replace(tzinfo=...) would attach the zone's first (LMT) offset
+                trigger = self._local_tzinfo.localize(trigger)
+            else:
+                trigger = trigger.replace(tzinfo=self._local_tzinfo)
         return AlarmTime(alarm, trigger, self._last_ack, self._snooze_until, self._parent)
 
     def _get_absolute_alarm_times(self) -> list[AlarmTime]:
